@@ -430,9 +430,12 @@ func overlaps(v reflect.Value, lo, hi uintptr, depth int, kinds map[string]bool)
 
 // FamAlias: Unmarshal, project, clobber / recycle the input buffer, project again.
 func (d *Driver) FamAlias(perType int) {
-	for _, ti := range d.Types {
+	for tn, ti := range d.Types {
 		d.W.NextGroup()
 		t := d.full(ti)
+		if tn == 0 {
+			d.decoderModeAlias(ti)
+		}
 		vals := d.S.SingleFieldValues(t, d.R)
 		for n := 0; n < perType; n++ {
 			var am AM
@@ -559,6 +562,58 @@ func (d *Driver) FamAlias(perType int) {
 			e.Eq = b2i(before == after && before != "")
 			if e.Eq == 0 {
 				e.Note = "extension value before: " + before + " after: " + after
+			}
+			d.emit(e)
+		}
+	}
+}
+
+// decoderModeAlias: csproto.Decoder itself ("... or decoder mode").  DecodeString copies in safe mode and may alias in fast mode; what
+// counts is the mode the decoder is in when the string is read, whatever it was switched to before.
+func (d *Driver) decoderModeAlias(ti TypeInfo) {
+	t := d.full(ti)
+	empty := d.Project(ti, ti.New())
+	for _, hist := range [][]csproto.DecoderMode{{}, {csproto.DecoderModeSafe}, {csproto.DecoderModeFast}, {csproto.DecoderModeFast, csproto.DecoderModeSafe},
+		{csproto.DecoderModeSafe, csproto.DecoderModeFast}, {csproto.DecoderModeFast, csproto.DecoderModeFast, csproto.DecoderModeSafe},
+		{csproto.DecoderModeSafe, csproto.DecoderModeFast, csproto.DecoderModeSafe}, {csproto.DecoderModeFast, csproto.DecoderModeSafe, csproto.DecoderModeFast}} {
+		for _, readFirst := range []bool{false, true} {
+			buf := []byte{0x0a, 0x05, 'h', 'e', 'l', 'l', 'o', 0x0a, 0x05, 'w', 'o', 'r', 'l', 'd'}
+			e := &GEv{C: "alias", T: t, Key: "csproto.Decoder", Fl: ti.Flavour, Set: "decoder", B: tr.Bytes(buf), M: empty, Dyn: empty, Lbl: fmt.Sprintf("decoder-modes-%v-readfirst=%v", hist, readFirst)}
+			var s string
+			var err error
+			guard(&e.St, &e.Note, func() {
+				dec := csproto.NewDecoder(buf)
+				for i, m := range hist {
+					dec.SetMode(m)
+					if readFirst && i == 0 {
+						// a string is read while the first mode is in force, the one that is judged is read under the last
+						_, _, _ = dec.DecodeTag()
+						_, _ = dec.DecodeString()
+					}
+				}
+				if _, _, err = dec.DecodeTag(); err != nil {
+					return
+				}
+				s, err = dec.DecodeString()
+				if dec.Mode() == csproto.DecoderModeFast {
+					e.Mode = 1
+				}
+			})
+			if e.St == "" {
+				e.St = errStatus(err)
+			}
+			if e.St != "ok" {
+				e.St = "harness"
+				d.emit(e)
+				continue
+			}
+			before := string(append([]byte{}, s...))
+			for i := range buf {
+				buf[i] = 'X'
+			}
+			e.Eq = b2i(s == before)
+			if e.Eq == 0 {
+				e.Size, e.Op = 1, "string,"
 			}
 			d.emit(e)
 		}
